@@ -18,6 +18,12 @@ pub fn rebuild(
 ) -> Result<String, anyhow::Error>
 {
 	let mut buffer = String::new();
+	if program.is_empty()
+	{
+		// A module without declarations (only comments) is valid,
+		// but a zero-byte file is not (E101).
+		writeln!(&mut buffer)?;
+	}
 	for declaration in program
 	{
 		write!(
